@@ -292,8 +292,7 @@ Section Form.
       destruct hi.
       - destruct md.
         + rewrite evoE_unfold, !evo_two. destruct on; simpl b2c.
-          * rewrite <- (interaction_herm_entry false).
-            rewrite (inter_formula_ext _ (pair_kept xy false mask)).
+          * rewrite (inter_formula_ext _ (pair_kept xy false mask)).
             2:{ intros p. reflexivity. }
             rewrite <- (interaction_herm_entry false).
             rewrite conj_add, !conj_mul, conj_1, conj_0. ring.
